@@ -45,6 +45,52 @@ def read_outputs(d: Path, strip: list[str]):
     return out
 
 
+def multi_tagger(rng, ptx, groups):
+    """painted scaffolds carry, on every piece, a chromosome name tag and a second known tag, so that a
+    cut contig inherits several tags (their order in the output must not depend on the hash seed)"""
+    names = ["X", "W1", "B2", "Z", "Y", "B1", "W2"]
+    for gi, grp in enumerate(groups):
+        extra = []
+        if grp[0]["painted"] and names and rng.random() < 0.8:
+            extra = [names.pop(0), "Singleton"]
+        k = 0
+        for r in ptx["scaffolds"][gi]["rows"]:
+            if r[0] == "F":
+                r[5] = (["Painted"] if grp[k]["painted"] else []) + extra
+                k += 1
+
+
+def gen_ties(rng):
+    """slivers cut exactly in half by two abutting baits: both overlaps equal, so which result keeps the
+    sliver is decided by the order in which the two results are visited"""
+    bpt = rng.choice([50, 100])
+    rows = []
+    pos = 0
+    cuts = []
+    for k in range(rng.randint(6, 12)):
+        if k:
+            rows.append(["G", 10, "scaffold"])
+            pos += 10
+        big = rng.randint(8 * bpt, 20 * bpt)
+        rows.append(["F", f"big{k}", 1, big, 1, []])
+        pos += big
+        rows.append(["G", 10, "scaffold"])
+        pos += 10
+        half = rng.randint(1, bpt // 2 - 1)
+        rows.append(["F", f"sliver{k}", 1, 2 * half, 1, []])
+        cuts.append(pos + half)
+        pos += 2 * half
+    rows += [["G", 10, "scaffold"], ["F", "tail", 1, 10 * bpt, 1, []]]
+    pos += 10 + 10 * bpt
+    baits = []
+    start = 1
+    for c in cuts + [pos]:
+        baits.append(["F", "S1", start, c, 1, []])
+        start = c + 1
+    scs = [{"name": f"Scaffold_{i + 1}", "rows": [b]} for i, b in enumerate(baits)]
+    return {"scaffolds": [{"name": "S1", "rows": rows}]}, {"bpt": f"{bpt}.000000", "scaffolds": scs}
+
+
 class C17(Prop):
     pid = "C17"
     imports = "From Tola Require Import Py.Base Model.Fragment Model.Scaffold Model.Namer Corr.NamerCorr."
@@ -58,9 +104,9 @@ class C17(Prop):
             "two spellings, known tags, the empty tag) given to make_scaffold_name in EVERY order a set iteration "
             "could produce (all permutations), first-row names with and without the ToL haplotype shape; "
             "cli: generated (FASTA, Pretext AGP) pairs run through the pretext-to-asm CLI in fresh processes under "
-            "PYTHONHASHSEED in {0, 24, random}, two working directories (absolute / relative paths), cold and warm "
+            "PYTHONHASHSEED in {0, 7, 24, 101, random} with pieces carrying several tags, two working directories (absolute / relative paths), cold and warm "
             "index cache, the input assembly given as FASTA, AGP and TPF, and a shuffled sequence of in-process "
-            "invocations; every output file compared byte for byte (log after stripping directories). "
+            "invocations; every output file compared byte for byte (log after stripping directories); ties: maps that cut slivers exactly in half remapped six times in one process with unrelated allocations in between. "
             "non-trivial = distinct tag set / distinct CLI case"
         )
 
@@ -89,9 +135,12 @@ class C17(Prop):
                     if r[0] == "F":
                         r[2], r[3] = pos + 1, pos + n_
                     pos += n_
-            ptx, _ = P.gen_pretext(rng, inp, "edit")
+            ptx, _ = P.gen_pretext(rng, inp, "edit", tagger=multi_tagger)
             yield {"gen": "cli", "kind": "cli", "input": inp, "pretext": ptx, "seq_seed": rng.randrange(10**6),
                    "seed3": rng.randrange(1, 10**6)}
+        for i in range(3 if tier == "quick" else 30):
+            inp, ptx = gen_ties(rng)
+            yield {"gen": "ties", "kind": "ties", "input": inp, "pretext": ptx, "prefix": "SUPER_", "junk": rng.randrange(10**6)}
 
     # ---- namer
     def namer_obs(self, case, order):
@@ -159,6 +208,8 @@ class C17(Prop):
             futs = {
                 "seed24": ex.submit(variant, "seed24", 24, False, "in.fa", "x.fa", True),
                 "seed3": ex.submit(variant, "seed3", case["seed3"], False, "in.fa", "x.fa", True),
+                "seed7": ex.submit(variant, "seed7", 7, False, "in.fa", "x.fa", True),
+                "seed101": ex.submit(variant, "seed101", 101, False, "in.fa", "x.fa", True),
                 "relcwd": ex.submit(variant, "relcwd", 0, True, "in.fa", "x.fa", True),
                 "fa2agp": ex.submit(variant, "fa2agp", 0, False, "in.fa", "x.agp", True),
             }
@@ -187,7 +238,22 @@ class C17(Prop):
         shutil.rmtree(root, ignore_errors=True)
         return {k: {"rc": v[0], "files": v[1]} for k, v in res.items()}
 
+    def run_ties(self, case):
+        """the same remapping several times in one process with unrelated allocations in between"""
+        r = random.Random(case["junk"])
+        outs = []
+        keep = []
+        for _ in range(6):
+            keep.append([object() for _ in range(r.randrange(1, 5000))])
+            if r.random() < 0.5 and keep:
+                keep.pop(r.randrange(len(keep)))
+            P.run_pipeline({"input": P.gen_input(r), "pretext": {"bpt": "10.000000", "scaffolds": []}})
+            outs.append(P.run_pipeline(case))
+        return {"runs": outs}
+
     def run_impl(self, case):
+        if case["kind"] == "ties":
+            return self.run_ties(case)
         if case["kind"] == "namer":
             orders = [list(p) for p in itertools.permutations(case["tags"])]
             return {"orders": [[o, self.namer_obs(case, o)] for o in orders]}
@@ -218,8 +284,13 @@ class C17(Prop):
                     return (f"make_scaffold_name depends on the iteration order of the tag set: order "
                             f"{obs['orders'][0][0]} gives {base}, order {order} gives {o}")
             return None
+        if case["kind"] == "ties":
+            for k, o in enumerate(obs["runs"][1:]):
+                if o != obs["runs"][0]:
+                    return f"remapping the same inputs again in the same process (run {k + 2}) gave a different result"
+            return None
         base = obs["base"]
-        same_as_base = ["warm", "seed24", "seed3", "relcwd", "inproc"]
+        same_as_base = ["warm", "seed24", "seed3", "seed7", "seed101", "relcwd", "inproc"]
         for k in same_as_base:
             v = obs[k]
             if v["rc"] != base["rc"]:
@@ -247,6 +318,8 @@ class C17(Prop):
         return json.dumps({k: v for k, v in case.items() if k != "gen"}, sort_keys=True, default=str)
 
     def classify(self, case, obs):
+        if case["kind"] == "ties":
+            return "ties"
         if case["kind"] == "namer":
             return "namer/" + ("err" if "err" in obs["orders"][0][1] else "ok")
         return "cli/rc=" + str(obs["base"]["rc"])
